@@ -72,6 +72,12 @@ impl FlushWorker {
             let flush_task = tokio::spawn(async move {
                 let _inflight_guard = inflight_guard;
                 let was_empty = memtable.is_empty();
+                // WAL entries up to this event id are covered by this (or an earlier) flush
+                let max_flushed_event_id = memtable
+                    .iter()
+                    .map(|e| e.event_id().raw())
+                    .max()
+                    .unwrap_or(0);
 
                 if tracing::enabled!(tracing::Level::INFO) {
                     info!(
@@ -220,12 +226,12 @@ impl FlushWorker {
                             debug!(
                                 target: "sneldb::flush",
                                 shard_id,
-                                wal_cutoff = segment_id + 1,
+                                max_flushed_event_id,
                                 "Cleaning up WAL files"
                             );
                         }
                         let cleaner = WalCleaner::new(shard_id);
-                        cleaner.cleanup_up_to(segment_id + 1);
+                        cleaner.cleanup_flushed(max_flushed_event_id);
                         #[cfg(feature = "sim-hooks")]
                         crate::sim_hooks::gate("flush.pruned", format!("s{}/{:05}", shard_id, segment_id)).await;
                     }
